@@ -1,6 +1,7 @@
 import CoxeterVerif.Driver.Proto
 import CoxeterVerif.Model.Structure
 import CoxeterVerif.Spec.Structure
+import CoxeterVerif.Lemmas.StructureCheck
 
 namespace OpsC07
 open Struct
@@ -82,6 +83,11 @@ def run (α : Type) [Scalar α] [Codec α] (op : String) (c : Ctx) : Option (Rd 
       let V : List (V3 α) ← rdVerts c
       let F ← rdFaces c
       pure (outEqns (findEquations V F))
+  | "st.simplex_equations" => some do
+      -- in: verts, simplices ; out: equations of `_find_simplex_equations`
+      let V : List (V3 α) ← rdVerts c
+      let S ← rdFaces c
+      pure (outEqns (simplexEquations V S))
   | "st.dihedral" => some do
       -- in: neighbours, normals, a, b ; out: angle | E:ValueError
       let N ← rdFaces c
@@ -101,6 +107,12 @@ def run (α : Type) [Scalar α] [Codec α] (op : String) (c : Ctx) : Option (Rd 
       match polySortFaces fc V F Rs cv with
       | .ok r => pure s!"{outFaces r.1} {outEqns r.2.1} {outFaces r.2.2}"
       | .error e => pure s!"E:{e}"
+  | "st.init_convex_flag" => some do
+      -- in: given (i-1 = None, i0, i1), faces ; out: b<_faces_are_convex>
+      let g ← Rd.int c
+      let F ← rdFaces c
+      let given : Option Bool := if g < 0 then none else some (g != 0)
+      pure (Out.bool (initFacesAreConvex given F))
   | "st.poly_reorder_face" => some do
       -- in: verts, face, R, convex ; out: face | E:kind
       let V : List (V3 α) ← rdVerts c
@@ -124,7 +136,7 @@ def run (α : Type) [Scalar α] [Codec α] (op : String) (c : Ctx) : Option (Rd 
       let labels ← rdFace c
       let F ← rdFaces c
       let g := mergeGraph E N atol rtol
-      pure s!"{outEdges g} {Out.bool (labelsContract F.length g labels)} {outFaces (mergedFaces F labels)}"
+      pure s!"{outEdges g} {Out.bool (labelsContract F.length g labels)} {outFaces (mergedFaces F labels)} {Out.bool (labelsCert F.length g labels)}"
   | "st.merge_faces" => some do
       -- in: convex flag, verts, faces, equations, neighbours, atol, rtol, labels, order, Rs, convex flags
       let fc ← rdBool c
@@ -146,6 +158,45 @@ def run (α : Type) [Scalar α] [Codec α] (op : String) (c : Ctx) : Option (Rd 
       let V : List (V3 α) ← rdVerts c
       let f ← rdFace c
       pure s!"{Out.bool (StructSpec.isSupportingFacet V f)} {Out.bool (StructSpec.cycleConvexCcw V f)} {Out.v3 (StructSpec.vectorArea V f)}"
+  | "st.dihedral_py" => some do
+      -- in: neighbours, normals, a, b (Python ints, may be negative / out of range) ; out: angle | E:kind
+      let N ← rdFaces c
+      let ns : List (V3 α) ← rdVerts c
+      let a ← Rd.int c
+      let b ← Rd.int c
+      match getDihedralPy N ns a b with
+      | .ok x => pure (Out.sc x)
+      | .error e => pure s!"E:{e}"
+  | "cert.surface" => some do
+      -- in: verts, faces ; out: b<surfaceCert> b<closed oriented> b<all faces well formed> b<all supporting>
+      --      b<all convex ccw> b<every vertex used> b<euler>    (exact with Q; theorem `surface_cert_sound`)
+      let V : List (V3 α) ← rdVerts c
+      let F ← rdFaces c
+      let used := (List.range V.length).all fun i => F.any fun f => f.contains i
+      let euler := decide (2 * (V.length + F.length) = (F.map List.length).sum + 4)
+      pure (Out.bools [StructSpec.surfaceCert V F, StructSpec.closedOrientedB F,
+        F.all (StructSpec.faceWellFormed V), F.all (StructSpec.isSupportingFacet V),
+        F.all (StructSpec.cycleConvexCcw V), used, euler])
+  | "cert.simplices" => some do
+      -- in: verts, start simplices, hull neighbours, G (implementation's simplices, rotated to the start)
+      -- out: b<simplexCert with p = vertex mean> b<same up to reversal> b<closed oriented> b<neighbours share>
+      --      b<connected> b<outward from p> b<model output == G>   (exact with Q; `sort_simplices_outward`)
+      let V : List (V3 α) ← rdVerts c
+      let S ← rdFaces c
+      let N ← rdFaces c
+      let G ← rdFaces c
+      let p := mean V
+      pure (Out.bools [simplexCert V S N G p, StructSpec.sameUpToReversalB S G, StructSpec.closedOrientedB G,
+        nbrsShareB N S, visitsAll N S, StructSpec.outwardFromB V p G, sortSimplices V S N == G])
+  | "cert.orient" => some do
+      -- in: faces (after the per-face reorder), G (implementation's faces) ; out: b<orientCert>
+      --      b<same up to reversal> b<closed oriented> b<connected>   (`poly_sort_faces_oriented`)
+      let F ← rdFaces c
+      let G ← rdFaces c
+      let conn := match findNeighbors F with
+        | .ok N => visitsAll N F
+        | .error _ => false
+      pure (Out.bools [orientCert F G, StructSpec.sameUpToReversalB F G, StructSpec.closedOrientedB G, conn])
   | "spec.closed_oriented" => some do
       -- in: faces ; out: b<no directed edge twice> b<every directed edge has its reverse> b<no loops>
       let F ← rdFaces c
